@@ -69,7 +69,9 @@ def check_collect(c, f, recv):
     c.need(len(loops) == 1, '%s: expected one for loop' % f.qual)
     loop = loops[0]
     hdr = g.node_of_stmt(loop)
-    lines = 'cmdlines'
+    lines = loop.iter.value.id if isinstance(loop.iter, ast.Subscript) and isinstance(loop.iter.value, ast.Name) else 'cmdlines'
+    rcands = [k.func.value.id for k in calls_in(loop) if callee_last(k) == 'append' and isinstance(k.func.value, ast.Name)]
+    RES = rcands[0] if rcands else 'res'
     c.check(norm(loop.iter) == '%s[1:]' % lines and isinstance(loop.target, ast.Name), f, loop, 'the loop covers every remaining line, in order',
             witness=norm(loop.iter), kind='ast', tag='loop-lines')
     lv = loop.target.id
@@ -88,7 +90,7 @@ def check_collect(c, f, recv):
     wl = set(n for n, k in ws if any(p is loop for p in parent_chain(k)))
     mn, mx = g.occurrences(lambda n: n in wl, start=body[0], goals={hdr}, skip_labels=('exc', 'raise'))
     c.check(mn == 1 and mx == 1, f, loop, 'each iteration waits for exactly one prompt', witness='min=%s max=%s' % (mn, mx), tag='wait-once')
-    apps = cfg_nodes_with_call(f, lambda k: callee_last(k) == 'append' and is_name(k.func.value, 'res'))
+    apps = cfg_nodes_with_call(f, lambda k: callee_last(k) == 'append' and is_name(k.func.value, RES))
     al = set(n for n, k in apps)
     mn, mx = g.occurrences(lambda n: n in al, start=body[0], goals={hdr}, skip_labels=('exc', 'raise'))
     okv = all(norm(k.args[0]) == '%s.child.before' % recv for n, k in apps)
@@ -105,13 +107,13 @@ def check_collect(c, f, recv):
     c.check(len(rets) == 1, f, rets[0].ast if rets else None, 'the result is a join', kind='ast', tag='join')
     if rets:
         a = rets[0].ast.value.args[0]
-        ok = isinstance(a, ast.BinOp) and isinstance(a.op, ast.Add) and is_name(a.left, 'res') and norm(a.right) == '[%s.child.before]' % recv
+        ok = isinstance(a, ast.BinOp) and isinstance(a.op, ast.Add) and is_name(a.left, RES) and norm(a.right) == '[%s.child.before]' % recv
         c.check(ok, f, rets[0].ast, 'result = everything collected so far + the before of the final wait, in order', witness=norm(a), kind='ast', tag='join-all')
         sep = rets[0].ast.value.func.value
         c.check(isinstance(sep, ast.Constant) and sep.value == '', f, rets[0].ast, 'joined with the empty string (nothing inserted)', kind='ast', tag='join-sep')
         fw = [n for n, k in after_w if g.dominated_by(rets[0], {n})[0] and g.dominated_by(n, {hdr})[0]]
         c.check(bool(fw), f, rets[0].ast, 'a final prompt wait precedes the return', tag='final-wait')
-    inits = [n for n in g.nodes if n.kind == 'stmt' and 'res' in assigned_names(n.ast)]
+    inits = [n for n in g.nodes if n.kind == 'stmt' and RES in assigned_names(n.ast)]
     c.check(len(inits) == 1 and norm(inits[0].ast.value) == '[]', f, inits[0].ast if inits else None, 'the collection starts empty, once', kind='ast', tag='init')
 
 
@@ -196,10 +198,18 @@ def check_prompts(c, repo):
                 v = const_str(st.value, env)
                 if v is not None:
                     env[st.targets[0].id] = v
-        c.need('ps1' in env and 'ps2' in env and 'prompt_change' in env, '_repl_sh: ps1/ps2/prompt_change not constant-evaluable')
-        for name, lit, var in (('prompt', P, 'ps1'), ('continuation prompt', Q, 'ps2')):
+        # the prompt-change command is the third argument of REPLWrapper(...); ps1 / ps2 are the two values formatted into it
+        rk = [k for k in calls_in(f.node) if callee_last(k) == 'REPLWrapper']
+        c.need(len(rk) == 1 and len(rk[0].args) >= 3 and isinstance(rk[0].args[2], ast.Name), '_repl_sh: REPLWrapper(child, prompt, <prompt change>) not found')
+        pcv = rk[0].args[2].id
+        pcd = [st for st in f.node.body if isinstance(st, ast.Assign) and pcv in assigned_names(st)]
+        c.need(len(pcd) == 1 and isinstance(pcd[0].value, ast.Call) and callee_last(pcd[0].value) == 'format' and len(pcd[0].value.args) == 2
+               and all(isinstance(a, ast.Name) for a in pcd[0].value.args), '_repl_sh: prompt change is not <template>.format(ps1, ps2)')
+        v1, v2 = [a.id for a in pcd[0].value.args]
+        c.need(v1 in env and v2 in env and pcv in env, '_repl_sh: ps1/ps2/prompt_change not constant-evaluable')
+        for name, lit, var in (('prompt', P, v1), ('continuation prompt', Q, v2)):
             sent = env[var]
-            c.check(len(ins) > 0 and lit not in sent and lit not in env['prompt_change'], f, None,
+            c.check(len(ins) > 0 and lit not in sent and lit not in env[pcv], f, None,
                     '%s: the %s assignment text does not contain the awaited literal %r' % (q.split(':')[1], name, lit),
                     witness='sent %r' % sent, kind='alg', tag='hidden:%s:%s' % (q, var))
             c.check(sent.replace(ins, '') == lit, f, None, '%s: the shell displays exactly %r (the insert renders as nothing)' % (q.split(':')[1], lit),
@@ -208,18 +218,19 @@ def check_prompts(c, repo):
     ks = [k for k in calls_in(f.node) if callee_last(k) == 'REPLWrapper']
     c.need(len(ks) == 1, '_repl_sh: REPLWrapper(...) not found')
     k = ks[0]
-    c.check(len(k.args) >= 3 and is_name(k.args[2], 'prompt_change') and not any(kw.arg in ('new_prompt', 'continuation_prompt') for kw in k.keywords),
+    c.check(len(k.args) >= 3 and isinstance(k.args[2], ast.Name) and not any(kw.arg in ('new_prompt', 'continuation_prompt') for kw in k.keywords),
             f, k, 'the wrapper waits for the default (plain) prompt literals', witness=norm(k), kind='ast', tag='waits-plain')
 
 
 def check_setup(c, repo, sync):
     g = sync.cfg
-    sp = [n for n in g.nodes if n.kind == 'stmt' and isinstance(n.ast, ast.Assign) and 'cmdlines' in assigned_names(n.ast)]
-    c.check(len(sp) == 1 and norm(sp[0].ast.value) == 'command.splitlines()', sync, sp[0].ast if sp else None, 'the command is split into lines', kind='ast', tag='splitlines')
+    sp = [n for n in g.nodes if n.kind == 'stmt' and isinstance(n.ast, ast.Assign) and norm(n.ast.value) == 'command.splitlines()']
+    c.check(len(sp) == 1, sync, sp[0].ast if sp else None, 'the command is split into lines', kind='ast', tag='splitlines')
+    CL = sp[0].ast.targets[0].id if sp and isinstance(sp[0].ast.targets[0], ast.Name) else 'cmdlines'
     t = [x for x in g.nodes if x.kind == 'test' and norm(x.ast) == "command.endswith('\\n')"]
     ap = [n for x in t for n in guard_region(g, x, 'true') if any(callee_last(k) == 'append' and is_const(k.args[0], '') for k in node_calls(n))]
     c.check(len(t) == 1 and len(ap) == 1, sync, t[0].ast if t else None, 'a trailing newline gives a final empty line (so a block is terminated)', kind='path', tag='trailing-newline')
-    e = [x for x in g.nodes if x.kind == 'test' and norm(x.ast) == 'not cmdlines']
+    e = [x for x in g.nodes if x.kind == 'test' and norm(x.ast) == 'not %s' % CL]
     rs = [n for x in e for n in guard_region(g, x, 'true') if n.kind == 'stmt' and isinstance(n.ast, ast.Raise) and raised_class(n.ast, sync) == 'ValueError']
     sends = [n for n, k in cfg_nodes_with_call(sync, lambda k: callee_last(k) == 'sendline')]
     ok = len(e) == 1 and len(rs) == 1 and all(g.dominated_by(s, {e[0]})[0] for s in sends)
